@@ -1,5 +1,5 @@
 """C45 — command-line arguments reach commands unchanged (mitmproxy/command_lexer.py, command.py, types.py _StrType)."""
-import itertools, json, logging, re
+import itertools, json, logging, os, re
 from common.check import PropertyCheck, Skip
 import mitmproxy.types
 from mitmproxy import command, command_lexer, exceptions
@@ -44,9 +44,35 @@ class _Cmds:
     def t_none(self) -> None:
         self.got = ("t.none", [])
 
+    # the other convertible parameter types (tie of the transcribed conversions int / bool / path; no oracle clause of C45 is about them)
+    @command.command("t.i")
+    def t_i(self, *args: int) -> None:
+        self.got = ("t.i", list(args))
+
+    @command.command("t.b")
+    def t_b(self, *args: bool) -> None:
+        self.got = ("t.b", list(args))
+
+    @command.command("t.p")
+    def t_p(self, *args: mitmproxy.types.Path) -> None:
+        self.got = ("t.p", list(args))
+
+    @command.command("t.ibp")
+    def t_ibp(self, a: int, b: bool, c: mitmproxy.types.Path) -> None:
+        self.got = ("t.ibp", [a, b, c])
+
 
 # command key -> (types of the positional parameters, type of *rest or None); 's' = str, 'v' = verbatim (CmdArgs)   (= C45Driver.cmds)
-SIGS = {"s": ([], "s"), "v": ([], "v"), "one": (["s"], None), "two": (["s", "v"], None), "mix": (["v"], "s"), "none": ([], None)}
+SIGS = {"s": ([], "s"), "v": ([], "v"), "one": (["s"], None), "two": (["s", "v"], None), "mix": (["v"], "s"), "none": ([], None),
+        "i": ([], "i"), "b": ([], "b"), "p": ([], "p"), "ibp": (["i", "b", "p"], None)}
+CONV = ["i", "b", "p", "ibp"]
+os.environ["HOME"] = "/h/me/"          # = C45Driver.env; the password database entry relied on is root -> /root
+CONV_TEXTS = {"i": ["5", "-3", "+7", "007", " 5 ", "1_0", "_1", "1__0", "\u0663\u0664", "\uff15", "5\x00", "", "abc", "1 2", "\xa07", "\x1c5", "0x10", "1e3",
+                    "12345678901234567890123", "-0", "+", "\u0967_\u0968", "\x0b7\x0c", "true"],
+              "b": ["true", "false", "True", "", "1", "0", "yes", " true", "true ", "toggle", "TRUE", "fals"],
+              "p": ["~", "~/x", "~//x/", "~root", "~root/a b", "~nosuchuser/x", "a~", "~~", "~/", "x/~", "~\x00", "~a\x00b/c", "", "/abs/p", "rel/p", "~root/", "~/\u00e9",
+                    "C:\\new", "~'q\"", " ~", "~ /x"]}
+
 NAMES = {"t." + k: k for k in SIGS}
 
 
@@ -209,13 +235,19 @@ class Check(PropertyCheck):
                   "signature shape: fixed parameters of mixed types, *rest, none; guard per parameter type) with counterexamples "
                   "`C:\\new` (F-C45b) and both quotes (F-C45a), execute_delivers_typed_tokens (for every line and signature, what reaches "
                   "the command is position by position the typed conversion of the unquoted argument tokens), bindTys_spec, "
-                  "arity_mismatch_runs_nothing, executeSig_varargs. Model tied to the code through CommandManager.execute on six "
+                  "arity_mismatch_runs_nothing, executeSig_varargs, execute_is_a_function_of_the_parse; the remaining conversions are "
+                  "transcribed and tied (int = Python int() shared with C44, bool, path = posixpath.expanduser with $HOME / password "
+                  "database as parameters): typed_execute_extends_execute (the typed model the driver runs equals the str/verbatim one), "
+                  "execute_delivers_typed_values (all five parameter types), bool_arg_exact, int_arg_is_python_int, "
+                  "path_arg_unchanged_without_tilde, path_arg_home, path_arg_roundtrip, expandUser_agrees_with_optmanager. Model tied to the code through CommandManager.execute on six "
                   "registered test commands, every line executed 1–3 times on one manager.")
     level_note = ("PARTIAL: the full statement is false for the code (three recorded findings with exact classifiers, see known_selftest); "
                   "proved under the guards named above. trusted: Lean kernel; differential tie (every execution's outcome, quote(), token "
                   "list); the pyparsing grammar, the escape regex and codecs.unicode-escape are transcribed by hand into Model/C45.lean "
                   "(validated by the tie, not verified against pyparsing/re/codecs); the Unicode name database of \\N{…} stays a parameter "
-                  "(four names in the driver); parameter defaults and the int/bool/Path/… conversions are not modelled.")
+                  "(four names in the driver); parameter defaults and the conversions that need the manager or the file system (Cmd, CutSpec, flows, Choice, "
+                  "Sequence[str] splitting, path completion) are not modelled; $HOME and the password database are parameters of the "
+                  "path conversion (the tie fixes HOME=/h/me/ and the entry root→/root).")
     technique = "Lean 4 proof (induction over strings / argument lists) + differential correspondence through CommandManager.execute"
     rule = ("(a) every string of length <=3 (thorough <=4) over {a, space, \", ', \\, n, x} as one argument of a str-typed and of a "
             "verbatim-typed command, (b) 1–3 random arguments over an alphabet with all whitespace kinds, both quotes, backslashes, "
@@ -274,7 +306,17 @@ class Check(PropertyCheck):
             for route in ROUTES:
                 for ty, args in (("v", [c]), ("s", ["100" + c]), ("v", [c + "a"]), ("two", ["a", "b" + c]), ("mix", ["a", c]), ("one", [c + c])):
                     yield {"k": "args", "ty": ty, "args": args, "route": route}
+        # tie of the transcribed conversions int() / bool / expanduser: every text, alone and in the three-typed signature
+        for key in ("i", "b", "p"):
+            for t in CONV_TEXTS[key]:
+                yield {"k": "conv", "ty": key, "args": [t]}
+                yield {"k": "conv", "ty": key, "args": ["".join(rng.pick(CONV_TEXTS[key]) for _ in range(2)), t]}
+        for a in CONV_TEXTS["i"][:8]:
+            for b in CONV_TEXTS["b"][:4]:
+                for c in CONV_TEXTS["p"][:8]:
+                    yield {"k": "conv", "ty": "ibp", "args": [a, b, c]}
         for key, (pos, rest) in SIGS.items():
+            if key in CONV: continue
             for n in range(0, len(pos) + 3):
                 for w in ("a", "a b", "'\"", "C:\\new", ""):
                     yield {"k": "args", "ty": key, "args": [w] * n}
@@ -294,7 +336,7 @@ class Check(PropertyCheck):
     # ------------------------------------------------------------------ implementation
     def impl(self, case):
         cm, sink = manager()
-        if case["k"] == "args":
+        if case["k"] in ("args", "conv"):
             quoted = [command_lexer.quote(a) for a in case["args"]]
             line = "t.%s" % case["ty"] + "".join(" " + q for q in quoted)
         else:
@@ -362,6 +404,8 @@ class Check(PropertyCheck):
 
     def _oracle_one(self, case, obs, ex, run):
         fails = []
+        if case["k"] == "conv":
+            return fails          # tie of the int / bool / path conversions only
         if case["k"] == "args":
             # "Any string, quoted with the console's quoting rule and placed in a command line, is passed to the executed command unchanged"
             want = case["args"]
@@ -498,7 +542,7 @@ class Check(PropertyCheck):
 
     # ------------------------------------------------------------------ model tie
     def model_lines(self, case):
-        if case["k"] == "args":
+        if case["k"] in ("args", "conv"):
             line = "t.%s" % case["ty"] + "".join(" " + command_lexer.quote(a) for a in case["args"])
             extra = ["quote %s" % enc(a) for a in case["args"]]
         else:
@@ -509,22 +553,28 @@ class Check(PropertyCheck):
     def model_obs(self, case, replies):
         return replies
 
+    @staticmethod
+    def _show(a):
+        if isinstance(a, bool): return "b:1" if a else "b:0"
+        if isinstance(a, int): return "i:%d" % a
+        return enc(a)
+
     def impl_view(self, case, obs):
         firsts = []
         for ex in obs["execs"]:
-            if ex[0] == "call": firsts.append(" ".join(["call", enc(ex[1]), str(len(ex[2]))] + [enc(a) for a in ex[2]]))
+            if ex[0] == "call": firsts.append(" ".join(["call", enc(ex[1]), str(len(ex[2]))] + [self._show(a) for a in ex[2]]))
             else: firsts.append(ex[0])
         return firsts + [enc(q) for q in obs["quoted"]] + [" ".join([str(len(obs["tokens"]))] + [enc(t) for t in obs["tokens"]])]
 
     def classify(self, case, obs):
         plan = "".join(case.get("plan", ["x"])) + "/" + case.get("route", "m")
-        if case["k"] == "args": return ("a", case["ty"], tuple(case["args"]), plan)
+        if case["k"] in ("args", "conv"): return (case["k"][0], case["ty"], tuple(case["args"]), plan)
         return ("r", case["ty"], case["line"], plan) if case["line"].strip(WS) else None
 
     def branches(self, case, obs):
         out = ["%s:%s:%s" % (case["k"], case["ty"], obs["exec"][0]), "plan:" + "".join(case.get("plan", ["x"])), "route:" + case.get("route", "m")]
         if any(len(a) > 1 and a[0] in "'\"" and a[-1] == a[0] for a in case.get("args", [])): out.append("arg-wrapped-in-quotes")
-        if case["k"] == "args":
+        if case["k"] in ("args", "conv"):
             for a, q in zip(case["args"], obs["quoted"]):
                 out.append("quote:" + ("bare" if q == a else "dq" if q[0] == '"' and '"' not in a else "sq" if q[0] == "'" else "x22"))
             if any("\\" in a for a in case["args"]): out.append("has-backslash")
@@ -533,7 +583,7 @@ class Check(PropertyCheck):
         return out
 
     def shrink_candidates(self, case):
-        if case["k"] == "args":
+        if case["k"] in ("args", "conv"):
             a = case["args"]
             for i in range(len(a)):
                 if len(a) > 1: yield dict(case, args=a[:i] + a[i + 1:])
@@ -545,7 +595,7 @@ class Check(PropertyCheck):
                 yield dict(case, line=l[:j] + l[j + 1:])
 
     def neighbours(self, case, rng):
-        strs = case["args"] if case["k"] == "args" else [case["line"][4:]]
+        strs = case["args"] if case["k"] in ("args", "conv") else [case["line"][4:]]
         for s in strs:
             for i in range(len(s) + 1):
                 for c in SMALL + ["\xa0", "\n"]:
